@@ -5,6 +5,7 @@ CONSTANTS
   Fuel = 200
   Prods = {"sc-escapeT", "arith"}
   Faults = {}
+  Root = "os"
   BindTys = {"int"}
   IntLits = {1, 2}
 INVARIANTS GenSound TypeSafety Report
